@@ -2400,6 +2400,272 @@ Proof.
     rewrite (ni_cont n ta m l (S k1) _ o lv t tp fnm rest Hta IHa IHl Ht H2 (NI_hd m l Hl rest) ltac:(lia)).
     f_equal. unfold G. f_equal. cbn [List.length]. repeat rewrite app_length. cbn [List.length]. repeat rewrite app_length. lia.
 Qed.
+
+(* ---- size and alphabet of grammar strings *)
+Lemma no_dollar_seq : forall seq, forallb seqchar seq = true -> no_dollar seq.
+Proof.
+  intros seq H. rewrite forallb_forall in H. apply Forall_forall. intros x Hx. specialize (H x Hx).
+  unfold seqchar, isdigit, isupper in H. lia.
+Qed.
+Lemma dec_len1 : forall v, 0 < v < 1000000000 -> (1 <= List.length (dec v))%nat.
+Proof.
+  intros v Hv. destruct (dec_spec v Hv) as [ds [E1 [_ [_ [E4 _]]]]]. rewrite E1. destruct ds; [ contradiction | cbn; lia ].
+Qed.
+Lemma src_len2 : forall id, ident_okb id = true -> (2 <= List.length (src id))%nat.
+Proof.
+  intros id H. pose proof (ident_len id H). pose proof (dec_len1 _ H0). unfold src. rewrite app_length. lia.
+Qed.
+Lemma grammar_cost :
+  (forall n u, TyL n u -> (n + 3 <= 6 * List.length u)%nat) /\ (forall n ta, TA n ta -> (n <= 6 * List.length ta)%nat) /\
+  (forall n l, TAL n l -> (n <= 6 * List.length l + 1)%nat) /\ (forall n l, NI n l -> (n <= 6 * List.length l + 1)%nat).
+Proof.
+  apply grammar_ind; intros; cbn [List.length] in *; repeat rewrite app_length in *; cbn [List.length] in *;
+    repeat rewrite app_length in *; cbn [List.length] in *;
+    try match goal with X : ident_okb ?id = true |- _ => pose proof (src_len2 id X) end;
+    try match goal with X : 0 < ?v < 1000000000 |- _ => pose proof (dec_len1 v X) end; lia.
+Qed.
+Lemma grammar_no_dollar :
+  (forall n u, TyL n u -> no_dollar u) /\ (forall n ta, TA n ta -> no_dollar ta) /\
+  (forall n l, TAL n l -> no_dollar l) /\ (forall n l, NI n l -> no_dollar l).
+Proof.
+  apply grammar_ind; intros; unfold no_dollar in *.
+  - constructor; [| constructor ]. destruct (builtin_facts c H) as [_ [_ [_ [_ [_ [_ [_ [_ [_ [_ [_ [_ [_ F]]]]]]]]]]]]]. exact F.
+  - constructor; [| assumption ]. unfold tyqual_okb in H. cbn in H.
+    repeat (apply orb_prop in H; destruct H as [H | H]); try discriminate; apply Z.eqb_eq in H; lia.
+  - constructor; [ lia |]. apply Forall_app. split; [ apply no_dollar_seq; assumption |]. constructor; [ lia | assumption ].
+  - apply Forall_app. split; [ apply no_dollar_src; assumption | assumption ].
+  - constructor; [ lia |]. apply Forall_app. split; [ assumption | repeat constructor; lia ].
+  - constructor.
+  - constructor; [ lia |]. apply Forall_app. split; [ assumption | repeat constructor; lia ].
+  - constructor.
+  - apply Forall_app. split; assumption.
+  - constructor; [ lia |]. constructor.
+    { destruct (builtin_facts c H) as [_ [_ [_ [_ [_ [_ [_ [_ [_ [_ [_ [_ [_ F]]]]]]]]]]]]]. exact F. }
+    apply Forall_app. split.
+    { destruct (dec_spec v H0) as [ds [E1 [E2 _]]]. rewrite E1. apply no_dollar_digits. exact E2. }
+    constructor; [ lia | assumption ].
+  - constructor.
+  - apply Forall_app. split; [ apply no_dollar_src; assumption |]. apply Forall_app. split; assumption.
+  - constructor; [ lia |]. apply Forall_app. split; [ apply no_dollar_seq; assumption |].
+    constructor; [ lia |]. apply Forall_app. split; assumption.
+Qed.
+
+(* ---- parameter list: <type>* up to the end of the string *)
+Inductive PTys : nat -> list Z -> Prop :=
+| PT_nil : PTys 1 []
+| PT_cons : forall n m u l, TyL n u -> PTys m l -> PTys (n + m + 3) (u ++ l).
+
+Lemma PTys_follow : forall m l, PTys m l -> follow_ok l.
+Proof.
+  intros m l H. destruct H as [| n m u l Hu Hl ]; [ unfold follow_ok; cbn; split; discriminate |].
+  destruct (tyhd_facts _ (TyL_hd n u Hu l)) as [_ [A B]]. split; assumption.
+Qed.
+
+Lemma enc_types_g : forall m l, PTys m l -> forall k p x, At p l -> (m <= k)%nat ->
+  run true s 0 k LEncTypes (NS p (Some x) 1 false) = R 0 (NS (p + Z.of_nat (List.length l)) (Some x) 1 false).
+Proof.
+  intros m l H. induction H as [| n m u l Hu Hl IH ]; intros k p x H Hk.
+  - destruct k as [| k]; [ lia |].
+    cbn [List.length]. cbn [run body]. unfold enc_types_loop, NS.
+    rewrite bind_eof. stsimpl. destruct H as [H0 [H1 H2]]. cbn [List.length] in H2.
+    rwt (p >=? L).
+    erewrite bind_R; [| apply (curr_at _ []); [ split; [ exact H0 | split; [ exact H1 | exact H2 ] ] | reflexivity ] ].
+    cbn [Z.eqb orb]. replace (p + Z.of_nat 0) with p by lia. reflexivity.
+  - destruct k as [| k]; [ lia |].
+    cbn [run body]. unfold enc_types_loop. unfold NS at 1.
+    destruct (tyhd_facts _ (TyL_hd n u Hu l)) as [Fe _].
+    assert (Hlt : p < L).
+    { pose proof (TyL_nonempty n u Hu). destruct u as [| c r]; [ contradiction |]. cbn [app] in H. apply (At_lt _ _ _ H). }
+    rewrite bind_eof. stsimpl. rwf (p >=? L).
+    erewrite bind_R; [| apply (curr_at _ (u ++ l)); [ exact H | reflexivity ] ].
+    cbn [Z.eqb orb]. rewrite Fe.
+    change (mkst p L (Some x) 0 1 0 false false false false) with (G p (Some x) 1 0 0 false).
+    erewrite bind_R; [| apply (type_wrap n u (proj1 grammar_walk n u Hu) (TyL_nonempty n u Hu) k p (Some x) 1 0 0 false l);
+                        [ lia | exact H | exact (PTys_follow m l Hl) | lia ] ].
+    cbn [Z.ltb Z.compare].
+    change (G (p + Z.of_nat (List.length u)) (Some x) 1 0 0 false) with (NS (p + Z.of_nat (List.length u)) (Some x) 1 false).
+    rewrite (IH k _ x (At_app _ _ _ H) ltac:(lia)).
+    f_equal. unfold NS. f_equal. rewrite app_length. lia.
+Qed.
+
+(* ---- the function's own name: (<source-name> [<targs>])+ with general template arguments *)
+Inductive Comps : nat -> list (list Z) -> list Z -> Prop :=
+| CP_nil : Comps 0 [] []
+| CP_cons : forall id n ta m ids l, ident_okb id = true -> TA n ta -> Comps m ids l ->
+            Comps (n + m + 3) (id :: ids) (src id ++ ta ++ l).
+
+Lemma Comps_hd : forall m ids l, Comps m ids l -> forall rest, hd0 rest <> 66 -> hd0 (l ++ rest) <> 66.
+Proof.
+  intros m ids l H rest Hr. destruct H as [| id n ta m ids l Hid Hta Hl ]; [ exact Hr |].
+  rewrite <- !app_assoc. pose proof (src_hd_digit id (ta ++ l ++ rest) Hid). lia.
+Qed.
+Lemma Comps_no_dollar : forall m ids l, Comps m ids l -> no_dollar l.
+Proof.
+  intros m ids l H. induction H; [ constructor |].
+  apply Forall_app. split; [ apply no_dollar_src; assumption |]. apply Forall_app. split; [| assumption ].
+  apply (proj1 (proj2 grammar_no_dollar) n ta). assumption.
+Qed.
+Lemma Comps_cost : forall m ids l, Comps m ids l -> (m <= 6 * List.length l)%nat.
+Proof.
+  intros m ids l H. induction H; [ cbn; lia |].
+  repeat rewrite app_length. pose proof (proj1 (proj2 grammar_cost) n ta H0). pose proof (ident_len id H).
+  assert (1 <= List.length (src id))%nat by (unfold src; rewrite app_length; lia). lia.
+Qed.
+
+Lemma nested_gcomps : forall m ids enc, Comps m ids enc -> forall l k p o lv fnm rest x,
+  At p (enc ++ last_enc l ++ 69 :: rest) -> last_okb l = true ->
+  no_dollar (enc ++ last_enc l ++ 69 :: rest) -> L <= INT_MAX ->
+  out_after o fnm ids = Some x -> fnm_after fnm ids = false -> (m + 3 <= k)%nat ->
+  run true s 0 k (LNested 0) (NS p o lv fnm) =
+  R 0 (NS (p + Z.of_nat (List.length enc) + Z.of_nat (List.length (last_enc l))) (Some (last_out x l)) lv false).
+Proof.
+  intros m ids enc H. induction H as [| id n ta m ids enc Hid Hta Hc IH ]; intros l k p o lv fnm rest x H Hl Hnd HL Hout Hfnm Hk.
+  - cbn [app List.length out_after fnm_after] in *. subst o fnm. replace (p + Z.of_nat 0) with p by lia.
+    destruct k as [| [| [| k]]]; try lia.
+    apply (nested_end l k p x lv rest H Hl).
+  - rewrite <- !app_assoc in H, Hnd.
+    set (tail := enc ++ last_enc l ++ 69 :: rest) in *.
+    assert (HlastB : hd0 (last_enc l ++ 69 :: rest) <> 66).
+    { destruct l as [| kd | kd | c0 c1]; cbn [last_enc app hd0]; try lia.
+      cbn [last_okb] in Hl. apply andb_prop in Hl. destruct Hl as [Hl _]. apply andb_prop in Hl. destruct Hl as [Hl _].
+      unfold op_okb in Hl. apply andb_prop in Hl. destruct Hl as [Hl _]. apply andb_prop in Hl. destruct Hl as [Hl _].
+      unfold islower in Hl. lia. }
+    assert (HtailB : hd0 tail <> 66) by (apply (Comps_hd m ids enc Hc); exact HlastB).
+    destruct k as [| k1]; [ lia |]. destruct k1 as [| k2]; [ lia |].
+    change (run true s 0 (S (S k2)) (LNested 0)) with (nested_loop true s 0 (run true s 0 (S k2)) 0).
+    unfold nested_loop.
+    pose proof (src_hd_digit id (ta ++ tail) Hid) as Hd.
+    destruct (src id ++ ta ++ tail) as [| d tl] eqn:E.
+    { exfalso. unfold src in E. destruct (hd0_dec_digit _ (id ++ ta ++ tail) (ident_len id Hid)) as [_ Hne].
+      rewrite <- app_assoc in E. destruct (dec (Z.of_nat (List.length id))); [ contradiction | discriminate ]. }
+    cbn [hd0] in Hd. unfold NS at 1.
+    erewrite bind_R; [| apply (curr_at _ (d :: tl)); [ exact H | reflexivity ] ].
+    rewrite bind_eof. stsimpl. pose proof (At_lt _ _ _ H) as Hlt. rwf (p >=? L). cbn [hd0]. chs. cbn [Z.eqb].
+    rwf (d =? 69). cbn [orb negb].
+    erewrite bind_R; [| apply (peek1_at _ d tl); [ exact H | reflexivity ] ].
+    rwf (d =? 68). rwf (d =? 67). cbn [andb orb]. rwf (d =? 85). cbn [orb].
+    unfold islower, isdigit. rwf (97 <=? d). rwt (48 <=? d). rwt (d <=? 57). cbn [andb orb].
+    rewrite <- E in H, Hnd.
+    assert (Hnd2 : no_dollar (id ++ ta ++ tail)).
+    { unfold src in Hnd. rewrite <- app_assoc in Hnd. eapply no_dollar_app_r. exact Hnd. }
+    assert (HB2 : hd0 (ta ++ tail) <> 66).
+    { destruct (TA_hd n ta Hta) as [E1 | [r E1]]; subst ta; cbn [app hd0]; [ exact HtailB | lia ]. }
+    fold (NS p o lv fnm).
+    erewrite bind_R; [| apply (unq_src k2 p o lv fnm id (ta ++ tail)); assumption ].
+    apply At_src_tail in H.
+    cbn [out_after fnm_after] in Hout, Hfnm.
+    set (p1 := p + Z.of_nat (List.length (src id))) in *.
+    set (o1 := add_out (sep_out o fnm) id) in *.
+    assert (Hrest : forall kk pp, At pp tail -> (m + 3 <= kk)%nat ->
+              run true s 0 kk (LNested 0) (NS pp o1 lv false) =
+              R 0 (NS (pp + Z.of_nat (List.length enc) + Z.of_nat (List.length (last_enc l))) (Some (last_out x l)) lv false)).
+    { intros kk pp Hpp Hkk. apply (IH l kk pp o1 lv false rest x); try assumption.
+      - eapply no_dollar_app_r. eapply no_dollar_app_r. exact Hnd.
+      - destruct ids; reflexivity. }
+    destruct (TA_hd n ta Hta) as [E1 | [r E1]]; subst ta.
+    + cbn [app List.length] in *. rewrite (Hrest (S k2) p1 H ltac:(lia)).
+      f_equal. unfold NS. f_equal. rewrite app_length. unfold p1. lia.
+    + change (run true s 0 (S k2) (LNested 0)) with (nested_loop true s 0 (run true s 0 k2) 0).
+      unfold nested_loop. unfold NS at 1. cbn [app] in H.
+      erewrite bind_R; [| apply (curr_at _ (73 :: r ++ tail)); [ exact H | reflexivity ] ].
+      rewrite bind_eof. stsimpl. pose proof (At_lt _ _ _ H) as Hlt1. rwf (p1 >=? L). cbn [hd0]. chs.
+      cbn [Z.eqb Pos.eqb orb negb].
+      erewrite bind_R; [| apply (peek1_at _ 73 (r ++ tail)); [ exact H | reflexivity ] ].
+      cbn [andb orb]. unfold islower, isdigit. cbn [Z.leb Z.compare Pos.compare Pos.compare_cont andb orb].
+      change (mkst p1 L o1 0 lv 0 false false false false) with (G p1 o1 lv 0 0 false).
+      change (73 :: r ++ tail) with ((73 :: r) ++ tail) in H.
+      erewrite bind_R; [| apply (proj1 (proj2 grammar_walk) n (73 :: r) Hta k2 p1 o1 lv 0 0 false tail); [ lia | discriminate | exact H | lia ] ].
+      change (G (p1 + Z.of_nat (List.length (73 :: r))) o1 lv 0 0 false) with (NS (p1 + Z.of_nat (List.length (73 :: r))) o1 lv false).
+      rewrite (Hrest k2 _ (At_app _ _ _ H) ltac:(lia)).
+      f_equal. unfold NS. f_equal. repeat rewrite app_length. unfold p1. cbn [List.length]. lia.
+Qed.
+
+Lemma encoding_generic_g : forall c0 tl x pe m ptxt F3,
+  At 0 (95 :: 90 :: c0 :: tl) -> c0 <> 84 -> c0 <> 71 ->
+  run true s 0 (S (S F3)) FName (NS 2 None 1 true) = R 0 (NS pe (Some x) 1 false) ->
+  At pe ptxt -> PTys m ptxt -> (m <= S (S F3))%nat ->
+  run true s 0 (S (S (S F3))) FEncoding (st0 L) = R 0 (NS L (Some x) 0 false).
+Proof.
+  intros c0 tl x pe m ptxt F3 H0 HcT HcG Hname Hpe Hpar HF.
+  pose proof (At_cons _ _ _ H0) as H1. pose proof (At_cons _ _ _ H1) as H2. cbn [Z.add Pos.add] in H1, H2.
+  change (run true s 0 (S (S (S F3))) FEncoding) with (dd_encoding s 0 (run true s 0 (S (S F3)))).
+  unfold dd_encoding, st0.
+  pose proof (At_lt _ _ _ H0) as HL0.
+  rewrite bind_eof. stsimpl. rwf (0 >=? L). cbn [Z.eqb].
+  rewrite bind_gets. stsimpl. cbn [Z.eqb].
+  erewrite bind_R; [| apply (consume_n_at _ 2 (95 :: 90 :: c0 :: tl)); [ exact H0 | reflexivity | cbn [List.length]; lia ] ].
+  stsimpl. cbn [Z.add]. unfold inc_level. rewrite bind_modify. stsimpl. cbn [Z.add].
+  erewrite bind_R; [| apply (curr_at _ (c0 :: tl)); [ exact H2 | reflexivity ] ].
+  cbn [hd0]. chs. rwf (c0 =? 84). rwf (c0 =? 71). cbn [orb].
+  fold (NS 2 None 1 true). erewrite bind_R; [| exact Hname ].
+  cbn [Z.ltb Z.compare].
+  erewrite bind_R; [| apply (enc_types_g m ptxt Hpar (S (S F3)) pe x Hpe HF) ].
+  assert (HpeL : pe + Z.of_nat (List.length ptxt) = L) by (destruct Hpe as [_ [_ HH]]; exact HH).
+  rewrite HpeL.
+  assert (Hend : At L []).
+  { rewrite <- HpeL. replace ptxt with (ptxt ++ []) in Hpe by apply app_nil_r. apply (At_app _ ptxt []). exact Hpe. }
+  unfold NS at 1.
+  erewrite bind_R; [| apply (curr_at _ []); [ exact Hend | reflexivity ] ].
+  cbn [hd0]. chs. cbn [Z.eqb]. rewrite bind_ret.
+  erewrite bind_R; [| apply (curr_at _ []); [ exact Hend | reflexivity ] ].
+  cbn [hd0 Z.eqb]. rewrite bind_ret.
+  unfold dec_level. rewrite bind_modify. stsimpl. reflexivity.
+Qed.
+
+Lemma gencoding_at : forall quals n id ids enc l m ptxt F,
+  s = str "_ZN" ++ quals ++ enc ++ last_enc l ++ 69 :: ptxt ->
+  forallb qual_okb quals = true -> Comps n (id :: ids) enc -> last_okb l = true -> PTys m ptxt ->
+  no_dollar (enc ++ last_enc l ++ 69 :: ptxt) -> L <= INT_MAX ->
+  (List.length quals + n + m + 10 <= F)%nat ->
+  run true s 0 F FEncoding (st0 L) = R 0 (NS L (Some (last_out (join_sep (id :: ids)) l)) 0 false).
+Proof.
+  intros quals n id ids enc l m ptxt F Hs Hq Hc Hl Hpar Hnd HL HF.
+  set (body := quals ++ enc ++ last_enc l ++ 69 :: ptxt) in *.
+  assert (H0 : At 0 (95 :: 90 :: 78 :: body)).
+  { unfold At. split; [ lia |]. split; [ unfold suffix; cbn [Z.add Z.to_nat skipn]; rewrite Hs; reflexivity |].
+    unfold flen. rewrite Hs. cbn [str app List.length]. lia. }
+  pose proof (At_cons _ _ _ H0) as H1. pose proof (At_cons _ _ _ H1) as H2. cbn [Z.add Pos.add] in H1, H2.
+  destruct F as [| F1]; [ lia |]. destruct F1 as [| F2]; [ lia |]. destruct F2 as [| F3]; [ lia |].
+  set (pq := 3 + Z.of_nat (List.length quals)).
+  set (pe := pq + Z.of_nat (List.length enc) + Z.of_nat (List.length (last_enc l)) + 1).
+  pose proof (At_cons _ _ _ H2) as H3. cbn [Z.add Pos.add] in H3.
+  assert (Hpq : At pq (enc ++ last_enc l ++ 69 :: ptxt)) by (apply (At_app _ quals); exact H3).
+  assert (Hpe : At pe ptxt).
+  { unfold pe. replace (pq + Z.of_nat (List.length enc) + Z.of_nat (List.length (last_enc l)) + 1)
+      with (pq + Z.of_nat (List.length enc) + Z.of_nat (List.length (last_enc l)) + Z.of_nat (List.length [69])) by (cbn [List.length]; lia).
+    apply (At_app _ [69] ptxt). apply (At_app _ (last_enc l)). apply (At_app _ enc). exact Hpq. }
+  apply (encoding_generic_g 78 body (last_out (join_sep (id :: ids)) l) pe m ptxt F3 H0); try lia; try assumption.
+  change (run true s 0 (S (S F3)) FName) with (dd_name true s 0 (run true s 0 (S F3))).
+  unfold dd_name. unfold NS at 1.
+  erewrite bind_R; [| apply (curr_at _ (78 :: body)); [ exact H2 | reflexivity ] ].
+  pose proof (At_lt _ _ _ H2).
+  rewrite bind_eof. stsimpl. rwf (2 >=? L). cbn [hd0]. chs. cbn [Z.eqb Pos.eqb].
+  change (run true s 0 (S F3) FNestedName) with (dd_nested_name s 0 (run true s 0 F3)).
+  unfold dd_nested_name.
+  rewrite bind_eof. stsimpl. rwf (2 >=? L). cbn [Z.eqb].
+  unfold expect at 1. unfold consume.
+  erewrite bind_R; [| apply (consume_n_at _ 1 (78 :: body)); [ exact H2 | reflexivity | cbn [List.length]; lia ] ].
+  cbn [hd0]. chs. cbn [Z.eqb Pos.eqb]. stsimpl.
+  unfold inc_level. rewrite bind_modify. stsimpl. cbn [Z.add Pos.add].
+  fold (NS 3 None 2 true).
+  assert (Hne : enc ++ last_enc l ++ 69 :: ptxt <> []).
+  { destruct enc; cbn [app]; [| discriminate ]. destruct (last_enc l); discriminate. }
+  erewrite bind_R.
+  2:{ replace F3 with (List.length quals + (F3 - List.length quals))%nat by lia.
+      rewrite (nested_quals quals _ 3 None 2 true (enc ++ last_enc l ++ 69 :: ptxt) H3 Hq Hne).
+      fold pq.
+      apply (nested_gcomps n (id :: ids) enc Hc l _ pq None 2 true ptxt (join_sep (id :: ids))); try assumption.
+      - apply out_after_start.
+      - reflexivity.
+      - lia. }
+  assert (H4 : At (pq + Z.of_nat (List.length enc) + Z.of_nat (List.length (last_enc l))) (69 :: ptxt)).
+  { apply (At_app _ (last_enc l)). apply (At_app _ enc). exact Hpq. }
+  unfold expect. unfold consume. unfold NS at 1.
+  erewrite bind_R; [| apply (consume_n_at _ 1 (69 :: ptxt)); [ exact H4 | reflexivity | cbn [List.length]; lia ] ].
+  cbn [hd0]. chs. cbn [Z.eqb Pos.eqb]. stsimpl.
+  unfold dec_level. rewrite bind_modify. stsimpl. unfold ret, NS. cbn [Z.sub Z.add Z.opp Z.pos_sub Pos.pred_double].
+  reflexivity.
+Qed.
 End Walk.
 
 (* ================================================================ the formal mangler and the theorem *)
@@ -2784,11 +3050,6 @@ Definition ydecl_okb (quals : list Z) (d : tdecl) (tys : list ty) : bool :=
   forallb qual_okb quals && forallb tcomp_okb (tscopes d) && last_okb (t_last d) && forallb ty_okb tys
   && (Z.of_nat (List.length (ymangle quals d tys)) <=? INT_MAX).
 
-Lemma no_dollar_seq : forall seq, forallb seqchar seq = true -> no_dollar seq.
-Proof.
-  intros seq H. rewrite forallb_forall in H. apply Forall_forall. intros x Hx. specialize (H x Hx).
-  unfold seqchar, isdigit, isupper in H. lia.
-Qed.
 Lemma no_dollar_nitems : forall items, forallb nitem_okb items = true -> no_dollar (nitems_enc items).
 Proof.
   induction items as [| i items IH]; intros H; [ constructor |].
@@ -2889,3 +3150,86 @@ Example roundtrip_examples5 :
   ymangle (str "KR") td_put ty_ex = str "_ZNKR5store3Buf3putEPKcRNS_3BufEPS0_SG_KS10_5Other" /\
   simple_name (erase td_put) = str "store::Buf::put".
 Proof. vm_compute. repeat split; reflexivity. Qed.
+
+(* ================================================================ the general formal mangler *)
+(* _Z N [V][K][R|O] (<source-name> [<targs>])+ [C<n> | D<n> | <operator>] E <type>*   with the mutually recursive
+   grammar TyL / TA / TAL / NI above: template arguments are types or literals, types may carry template
+   arguments, nested names and base-36 substitutions, to any depth *)
+Definition gmangle (quals enc : list Z) (l : lastk) (ptxt : list Z) : list Z :=
+  str "_ZN" ++ quals ++ enc ++ last_enc l ++ 69 :: ptxt.
+Definition gname (ids : list (list Z)) (l : lastk) : list Z :=
+  join_sep ids ++
+  match l with
+  | LPlain => []
+  | LCtor _ => str "::" ++ last ids []
+  | LDtor _ => str "::~" ++ last ids []
+  | LOp c0 c1 => str "::operator" ++ op_name c0 c1
+  end.
+
+Theorem roundtrip_general : forall quals n id ids enc l m ptxt,
+  forallb qual_okb quals = true -> Comps n (id :: ids) enc -> last_okb l = true -> PTys m ptxt ->
+  Z.of_nat (List.length (gmangle quals enc l ptxt)) <= INT_MAX ->
+  demangle (gmangle quals enc l ptxt) = Str (gname (id :: ids) l).
+Proof.
+  intros quals n id ids enc l m ptxt Hq Hc Hl Hpar HL.
+  set (s := gmangle quals enc l ptxt) in *.
+  assert (Hs : s = str "_ZN" ++ quals ++ enc ++ last_enc l ++ 69 :: ptxt) by reflexivity.
+  assert (Hpnd : no_dollar ptxt).
+  { clear - Hpar. induction Hpar; [ constructor |]. apply Forall_app. split; [| assumption ].
+    apply (proj1 grammar_no_dollar n u). assumption. }
+  assert (Hnd : no_dollar (enc ++ last_enc l ++ 69 :: ptxt)).
+  { apply Forall_app. split; [ apply (Comps_no_dollar n (id :: ids) enc Hc) |].
+    apply Forall_app. split; [ apply no_dollar_last; exact Hl |]. constructor; [ lia | exact Hpnd ]. }
+  assert (Hpc : (m <= 6 * List.length ptxt + 1)%nat).
+  { clear - Hpar. induction Hpar; [ cbn; lia |]. rewrite app_length.
+    pose proof (proj1 grammar_cost n u H). lia. }
+  assert (Hfuel : (List.length quals + n + m + 10 <= fuel_of s)%nat).
+  { unfold fuel_of. rewrite Hs. cbn [str]. repeat rewrite app_length. cbn [List.length].
+    pose proof (Comps_cost n (id :: ids) enc Hc). lia. }
+  assert (Hids : Forall (fun i => ident_okb i = true) (id :: ids)).
+  { clear - Hc. remember (id :: ids) as L0. clear HeqL0. induction Hc; constructor; assumption. }
+  assert (Hpre : prefix_of prefix_str s = false) by (rewrite Hs; reflexivity).
+  replace (gname (id :: ids) l) with (last_out (join_sep (id :: ids)) l).
+  - apply demangle_of_encoding.
+    + exact Hpre.
+    + unfold mangled_form, stripped. rewrite Hpre. rewrite Hs. reflexivity.
+    + apply (gencoding_at s quals n id ids enc l m ptxt (fuel_of s) Hs Hq Hc Hl Hpar Hnd HL Hfuel).
+  - rewrite (last_out_eq _ _ _ Hids Hl). reflexivity.
+Qed.
+
+(* non-vacuity:  void app::Vec<app::Rec, app::Alloc<app::Rec> >::push(app::Rec const&, pointer to app::Vec<int, 3>) *)
+Example roundtrip_examples6 :
+  exists n m enc ptxt,
+    Comps n [str "app"; str "Vec"; str "push"] enc /\ PTys m ptxt /\
+    gmangle [] enc LPlain ptxt = str "_ZN3app3VecINS_3RecENS_5AllocIS0_EEE4pushERKS0_PNS_3VecIiLi3EEE" /\
+    gname [str "app"; str "Vec"; str "push"] LPlain = str "app::Vec::push".
+Proof.
+  do 4 eexists. split; [| split; [| split ] ].
+  - (* 3app  3Vec I NS_3RecE NS_5AllocIS0_EE E  4push *)
+    eapply (CP_cons (str "app") _ [] _ _ _ eq_refl TA_none).
+    eapply (CP_cons (str "Vec") _ _ _ _ _ eq_refl).
+    { eapply TA_some. eapply TAL_ty.
+      { eapply TL_nested. eapply (NI_sub [] _ [] _ _ eq_refl TA_none).
+        eapply (NI_src (str "Rec") _ [] _ _ eq_refl TA_none). apply NI_nil. }
+      eapply TAL_ty.
+      { eapply TL_nested. eapply (NI_sub [] _ [] _ _ eq_refl TA_none).
+        eapply (NI_src (str "Alloc") _ _ _ _ eq_refl).
+        { eapply TA_some. eapply TAL_ty; [ eapply (TL_subst (str "0") _ [] eq_refl TA_none) | apply TAL_nil ]. }
+        apply NI_nil. }
+      apply TAL_nil. }
+    eapply (CP_cons (str "push") _ [] _ _ _ eq_refl TA_none). apply CP_nil.
+  - (* RKS0_  PNS_3VecIiLi3EEE *)
+    eapply PT_cons.
+    { eapply (TL_qual (ch "R")); [ reflexivity |]. eapply (TL_qual (ch "K")); [ reflexivity |].
+      eapply (TL_subst (str "0") _ [] eq_refl TA_none). }
+    eapply PT_cons.
+    { eapply (TL_qual (ch "P")); [ reflexivity |]. eapply TL_nested.
+      eapply (NI_sub [] _ [] _ _ eq_refl TA_none).
+      eapply (NI_src (str "Vec") _ _ _ _ eq_refl).
+      { eapply TA_some. eapply TAL_ty; [ apply (TL_builtin (ch "i")); reflexivity |].
+        eapply (TAL_lit (ch "i") 3); [ reflexivity | lia | apply TAL_nil ]. }
+      apply NI_nil. }
+    apply PT_nil.
+  - vm_compute. reflexivity.
+  - vm_compute. reflexivity.
+Qed.
